@@ -113,10 +113,18 @@ func runOne(w *World, id, tier, root string, seed int, start time.Time) (code in
 	defer func() {
 		if r := recover(); r != nil {
 			if ae, ok := r.(anchorError); ok {
-				fmt.Printf("BROKEN-CHECK: property=%s %s (the checker's anchor table no longer matches the tree; no verdict)\n", id, ae.Error())
-			} else {
-				fmt.Printf("BROKEN-CHECK: property=%s analyser panic: %v\n%s\n", id, r, debug.Stack())
+				// The construct a rule is anchored on is gone (removed, renamed or rewritten beyond what the
+				// rule recognises): the clause it stands for is not established on this tree. That is an
+				// undischarged obligation, reported like any other (exit 1 with a VIOLATION line and an
+				// evidence file), with the diagnosis that it is the anchor that is missing.
+				fmt.Printf("ANCHOR-MISSING: property=%s %s\n", id, ae.Error())
+				rr := c.Rule("ANCHOR", "anchors", 0, "every function, field, closure and variable the rules of this property are anchored on exists in the tree in a form the analysis can identify",
+					"a rule whose subject is gone decides nothing: the structural clauses that depend on it are not established on this tree")
+				rr.Check(false, nil, "anchor present: "+ae.what, nil, ae.Error()+": the mechanism this check examines was removed, renamed or rewritten beyond recognition; the rules that follow it were not evaluated")
+				code = c.Finish(seed)
+				return
 			}
+			fmt.Printf("BROKEN-CHECK: property=%s analyser panic: %v\n%s\n", id, r, debug.Stack())
 			code = 2
 		}
 	}()
